@@ -1,7 +1,1239 @@
-//! C12 — TODO
-use mc_core::Ctx;
+//! C12 — the database digest depends only on the immutable files up to the beacon.
+//!
+//! Bounded exhaustive, differential check on the real `CardanoImmutableDigester`
+//! (`compute_merkle_tree`, `compute_digests_for_range`; no cache, memory cache, JSON file cache)
+//! and `CardanoDatabaseSignableBuilder::compute_protocol_message`.
+//!
+//! The oracle never recomputes a digest. It only compares answers of the real code:
+//!  * same covered content (names + bytes of the immutable files numbered <= beacon) ⇒ same root,
+//!    whatever the creation order of the directory entries, the other files present, the files
+//!    beyond the beacon, the directory handed in, the entry point, or the cache history;
+//!  * computed without a cache, the root differs from the baseline for every single-byte change
+//!    of a covered file and for every covered file removed, and is unchanged for every change of
+//!    a file that is not covered.
+//!
+//! Parts: A layouts (orders / extra files / files beyond the beacon), B perturbations,
+//! C cache histories, D observations (reported, never violations).
 
-pub fn run(_ctx: &Ctx) -> ! {
-    eprintln!("C12: not implemented");
-    std::process::exit(2)
+mod engine;
+mod model;
+
+use engine::{Cache, DirV, Engine, Out};
+use mc_core::{Ctx, Report, hash64, par_map};
+use model::*;
+use serde_json::{Value, json};
+use std::collections::{BTreeMap, HashMap, HashSet};
+use std::path::{Path, PathBuf};
+
+// ------------------------------------------------------------------------------------------------
+// databases and baselines
+
+#[derive(Clone, Copy, Debug, PartialEq, Eq, Hash)]
+struct Db {
+    p: Pattern,
+    first: u64,
+    n: u64,
+}
+
+impl Db {
+    fn last(&self) -> u64 {
+        self.first + self.n - 1
+    }
+    fn to_json(&self) -> Value {
+        json!({"pattern": self.p.name(), "first_trio": self.first, "trios": self.n})
+    }
+    fn from_json(v: &Value) -> Option<Db> {
+        Some(Db { p: Pattern::parse(v["pattern"].as_str()?)?, first: v["first_trio"].as_u64()?, n: v["trios"].as_u64()? })
+    }
+    fn canonical(&self) -> Vec<Entry> {
+        trios(self.p, self.first..=self.last())
+    }
+}
+
+/// Answers of the real code on the canonical layout (only `immutable/` holding exactly the trios
+/// first..=beacon, created in sorted order; no cache; database directory handed in; epoch 1).
+struct Baselines {
+    root: HashMap<(Pattern, u64, u64), Out>,
+    /// (pattern, file name) → digest reported by `compute_digests_for_range` without cache
+    digest: HashMap<(Pattern, String), String>,
+}
+
+impl Baselines {
+    fn root(&self, db: Db, b: u64) -> Option<&Out> {
+        self.root.get(&(db.p, db.first, b))
+    }
+    /// expected answer of `compute_digests_for_range(lo..=hi)` on a layout: the reference digest
+    /// of every canonical trio file of the layout whose number is in the range
+    fn expected_range(&self, p: Pattern, es: &[Entry], lo: u64, hi: u64) -> Vec<(String, String)> {
+        let mut v = vec![];
+        for e in es {
+            if e.dir {
+                continue;
+            }
+            if let Some((num, ext)) = as_trio_file(&e.rel)
+                && num >= lo
+                && num <= hi
+                && *e == trio_entry(p, num, ext)
+            {
+                let name = trio_name(num, ext);
+                let d = self.digest.get(&(p, name.clone())).cloned().unwrap_or_else(|| "<no reference digest>".into());
+                v.push((name, d));
+            }
+        }
+        v.sort();
+        v
+    }
+}
+
+fn compute_baselines(eng: &Engine, scratch: &Path, patterns: &[Pattern], firsts: &[u64], nmax: u64, rep: &mut Report) -> Baselines {
+    let mut bl = Baselines { root: HashMap::new(), digest: HashMap::new() };
+    for &p in patterns {
+        for &first in firsts {
+            for b in first..=first + nmax {
+                let db = Db { p, first, n: b - first + 1 };
+                let base = scratch.join(format!("baseline-{}-{first}-{b}", p.name().replace('/', "_")));
+                let dir = materialize(&base, &db.canonical());
+                rep.eval();
+                let out = eng.merkle(None, &dir, b, 1);
+                // the same content laid out a second time, somewhere else
+                let base2 = scratch.join(format!("zz/again/baseline2-{}-{first}-{b}", p.name().replace('/', "_")));
+                let dir2 = materialize(&base2, &db.canonical());
+                let again = eng.merkle(None, &dir2, b, 1);
+                let case = json!({"kind": "baseline", "db": db.to_json(), "beacon": b});
+                if !out.is_root() {
+                    rep.violation(
+                        "C12/no-root-for-complete-database",
+                        format!("a database holding exactly the complete trios {first}..={b} ({}) gives {} at beacon {b}", p.name(), out.show()),
+                        case.clone(),
+                    );
+                } else {
+                    rep.nontrivial(&("baseline", p, first, b));
+                    rep.outcome("baseline-root");
+                }
+                if again != out {
+                    rep.violation(
+                        "C12/root-not-reproducible",
+                        format!("the same canonical database written twice gives {} and {} at beacon {b}", out.show(), again.show()),
+                        case,
+                    );
+                }
+                if b == first + nmax {
+                    match eng.range(None, &dir, 0, u64::MAX) {
+                        Ok(v) => {
+                            for (name, d) in v {
+                                bl.digest.insert((p, name), d);
+                            }
+                        }
+                        Err(e) => rep.machinery_error(format!("reference digests: compute_digests_for_range failed on the canonical database: {e}")),
+                    }
+                }
+                bl.root.insert((p, first, b), out);
+                let _ = std::fs::remove_dir_all(&base);
+                let _ = std::fs::remove_dir_all(&base2);
+            }
+        }
+    }
+    bl
+}
+
+// ------------------------------------------------------------------------------------------------
+// part A: layouts
+
+#[derive(Clone, Debug, PartialEq, Eq, Hash)]
+enum Spec {
+    /// trios first..=last created in sorted order, nothing else
+    Canonical,
+    /// canonical + files numbered beyond every trio of the database
+    Beyond(usize),
+    /// canonical + one extra-file placement, created before (true) or after (false) the trios
+    ExtraOne(usize, bool),
+    /// all extra-file placements at once: 0 after the trios, 1 before, 2 interleaved
+    ExtraAll(u8),
+    /// trios + a few extras inside `immutable/`, sorted order (reference of ImmPerm)
+    ImmExtras,
+    /// k-th permutation of the creation order of the 3n trio files
+    TrioPerm(u64),
+    /// a named creation order of the trio files
+    TrioNamed(usize),
+    /// k-th creation order of the four top-level groups of a node-like layout
+    TopLevel(u64),
+    /// k-th permutation of the creation order of trio files + extras inside `immutable/`
+    ImmPerm(u64),
+}
+
+#[derive(Clone, Debug, PartialEq, Eq)]
+enum Class {
+    Beyond,
+    Order,
+    Extra(String),
+}
+
+fn beyond_additions(db: Db) -> Vec<(&'static str, Vec<Entry>, bool)> {
+    let nx = db.last() + 1;
+    let f = |num: u64, ext: usize| Entry { rel: format!("immutable/{}", trio_name(num, ext)), dir: false, data: bytes_for(&format!("beyond:{num}:{ext}"), 5) };
+    vec![
+        ("in-progress-trio-chunk-only", vec![f(nx + 1, 0)], false),
+        ("in-progress-trio-after-gap", vec![f(nx + 1, 0), f(nx + 1, 1), f(nx + 1, 2), f(nx + 2, 0), f(nx + 2, 1)], false),
+        ("far-trio-99999", vec![f(99999, 0), f(99999, 1), f(99999, 2)], false),
+        ("six-digit-numbers", vec![f(100000, 0), f(123456, 2)], false),
+        ("beyond-files-created-first", vec![f(nx + 1, 2), f(nx + 1, 0), f(99999, 1)], true),
+    ]
+}
+
+fn imm_extras(db: Db) -> Vec<Entry> {
+    let unused = if db.first > 0 { db.first - 1 } else { db.last() + 3 };
+    let mut v = vec![file(&format!("immutable/{:05}.chunk.bak", db.first), 5)];
+    if db.n == 1 {
+        v.push(file("immutable/README", 5));
+        v.push(dir(&format!("immutable/{unused:05}.chunk")));
+    }
+    v
+}
+
+fn top_groups(db: Db) -> Vec<Vec<Entry>> {
+    let a = format!("{:05}", db.first);
+    let mut g0 = vec![dir("immutable")];
+    g0.extend(db.canonical());
+    vec![
+        g0,
+        vec![dir("ledger"), file(&format!("ledger/{a}.chunk"), 5), dir("ledger/123999"), file("ledger/123999/state", 5), dir("ledger/123999/tables"), file("ledger/123999/tables/tvar", 1)],
+        vec![dir("volatile"), file("volatile/blocks-0.dat", 5), file(&format!("volatile/{a}.secondary"), 5)],
+        vec![file("protocolMagicId", 3), file(&format!("{a}.primary"), 5), file("lock", 0)],
+    ]
+}
+
+fn build(db: Db, spec: &Spec) -> (Vec<Entry>, Class, String) {
+    let canon = db.canonical();
+    match spec {
+        Spec::Canonical => (canon, Class::Beyond, "canonical".into()),
+        Spec::Beyond(i) => {
+            let (name, add, first) = beyond_additions(db).swap_remove(*i);
+            let es = if first { add.into_iter().chain(canon).collect() } else { canon.into_iter().chain(add).collect() };
+            (es, Class::Beyond, format!("beyond:{name}"))
+        }
+        Spec::ExtraOne(i, first) => {
+            let x = extras(db.first, db.n).swap_remove(*i);
+            let es: Vec<Entry> = if *first { x.entries.into_iter().chain(canon).collect() } else { canon.into_iter().chain(x.entries).collect() };
+            (es, Class::Extra(x.place.to_string()), format!("extra:{}/{}:{}", x.place, x.name, if *first { "created-first" } else { "created-last" }))
+        }
+        Spec::ExtraAll(mode) => {
+            let all: Vec<Entry> = extras(db.first, db.n).into_iter().flat_map(|x| x.entries).collect();
+            let es: Vec<Entry> = match mode {
+                0 => canon.into_iter().chain(all).collect(),
+                1 => all.into_iter().chain(canon).collect(),
+                _ => {
+                    // one trio file after every third extra entry
+                    let mut out = vec![];
+                    let mut c = canon.into_iter();
+                    for (i, e) in all.into_iter().enumerate() {
+                        out.push(e);
+                        if i % 3 == 2
+                            && let Some(t) = c.next()
+                        {
+                            out.push(t);
+                        }
+                    }
+                    out.extend(c);
+                    out
+                }
+            };
+            (es, Class::Extra("all-placements".into()), format!("extra:all:{}", ["created-last", "created-first", "interleaved"][(*mode as usize).min(2)]))
+        }
+        Spec::ImmExtras => {
+            let es: Vec<Entry> = canon.into_iter().chain(imm_extras(db)).collect();
+            (es, Class::Extra("immutable".into()), "extra:immutable/perm-base".into())
+        }
+        Spec::TrioPerm(k) => {
+            let perm = nth_permutation(canon.len(), *k);
+            (perm.iter().map(|&i| canon[i].clone()).collect(), Class::Order, format!("order:trio-files-permutation-{k}"))
+        }
+        Spec::TrioNamed(i) => {
+            let (name, ord) = named_orders(canon.len()).swap_remove(*i);
+            (ord.iter().map(|&i| canon[i].clone()).collect(), Class::Order, format!("order:{name}"))
+        }
+        Spec::TopLevel(k) => {
+            let groups = top_groups(db);
+            let perm = nth_permutation(groups.len(), *k);
+            let es: Vec<Entry> = perm.iter().flat_map(|&i| groups[i].clone()).collect();
+            let class = if *k == 0 { Class::Extra("node-layout".into()) } else { Class::Order };
+            (es, class, format!("order:top-level-groups-{:?}", perm))
+        }
+        Spec::ImmPerm(k) => {
+            let base: Vec<Entry> = canon.into_iter().chain(imm_extras(db)).collect();
+            let perm = nth_permutation(base.len(), *k);
+            (perm.iter().map(|&i| base[i].clone()).collect(), Class::Order, format!("order:immutable-dir-permutation-{k}"))
+        }
+    }
+}
+
+fn parent(spec: &Spec) -> Option<Spec> {
+    match spec {
+        Spec::Canonical => None,
+        Spec::TopLevel(k) if *k > 0 => Some(Spec::TopLevel(0)),
+        Spec::ImmPerm(_) => Some(Spec::ImmExtras),
+        _ => Some(Spec::Canonical),
+    }
+}
+
+fn class_key(c: &Class) -> String {
+    match c {
+        Class::Beyond => "C12/files-beyond-beacon-change-root".into(),
+        Class::Order => "C12/root-depends-on-creation-order".into(),
+        Class::Extra(place) => format!("C12/root-depends-on-extra-file:{place}"),
+    }
+}
+
+#[derive(Clone, Copy, Debug, PartialEq, Eq, Hash)]
+enum Chan {
+    /// compute_merkle_tree, no cache, epoch 1
+    Tree,
+    /// CardanoDatabaseSignableBuilder::compute_protocol_message, fresh memory cache, epoch 9
+    Message,
+    /// compute_merkle_tree, fresh JSON cache file, epoch 0
+    TreeJson,
+}
+
+impl Chan {
+    const ALL: [Chan; 3] = [Chan::Tree, Chan::Message, Chan::TreeJson];
+    fn name(self) -> &'static str {
+        match self {
+            Chan::Tree => "compute_merkle_tree/no-cache",
+            Chan::Message => "compute_protocol_message/fresh-memory-cache",
+            Chan::TreeJson => "compute_merkle_tree/fresh-json-cache",
+        }
+    }
+    fn parse(s: &str) -> Chan {
+        Chan::ALL.into_iter().find(|c| c.name() == s).unwrap_or(Chan::Tree)
+    }
+}
+
+fn run_chan(eng: &Engine, base: &Path, dbdir: &Path, dirv: DirV, ch: Chan, b: u64) -> Out {
+    let dir = dirv.path(dbdir);
+    match ch {
+        Chan::Tree => eng.merkle(None, &dir, b, 1),
+        Chan::Message => eng.message(Some(eng.memory_cache()), &dir, b, 9),
+        Chan::TreeJson => {
+            let f = base.join("cache").join("fresh.json");
+            let _ = std::fs::create_dir_all(f.parent().unwrap());
+            let _ = std::fs::remove_file(&f);
+            eng.merkle(Some(eng.json_cache(&f)), &dir, b, 0)
+        }
+    }
+}
+
+/// the property's verdict on one answer
+fn conforms(out: &Out, baseline: &Out, complete: bool) -> bool {
+    if complete { out == baseline } else { out != baseline || !baseline.is_root() }
+}
+
+fn layout_case(db: Db, es: &[Entry], desc: &str, b: u64, dirv: DirV, ch: Chan, key: &str) -> Value {
+    json!({"kind": "layout", "db": db.to_json(), "layout": desc, "beacon": b, "directory_handed_in": dirv.name(),
+           "entry_point": ch.name(), "key": key, "entries_in_creation_order": entries_to_json(es)})
+}
+
+/// evaluate one (layout, beacon, dir, channel) from scratch in `base` (used by diagnosis / replay)
+fn eval_once(eng: &Engine, base: &Path, es: &[Entry], dirv: DirV, ch: Chan, b: u64) -> Out {
+    let _ = std::fs::remove_dir_all(base);
+    let dbdir = materialize(base, es);
+    let out = run_chan(eng, base, &dbdir, dirv, ch, b);
+    let _ = std::fs::remove_dir_all(base);
+    out
+}
+
+/// A (Db-dir, Tree) mismatch of `spec`: attribute it to the topmost ancestor layout that already
+/// mismatches (the smallest failing input), and name the key after that ancestor's class.
+fn diagnose(eng: &Engine, base: &Path, db: Db, spec: &Spec, b: u64, baseline: &Out) -> (String, Vec<Entry>, String, Out) {
+    let mut chain = vec![spec.clone()];
+    while let Some(p) = parent(chain.last().unwrap()) {
+        chain.push(p);
+    }
+    for s in chain.iter().rev() {
+        let (es, class, desc) = build(db, s);
+        let complete = covered_complete(&es, db.p, db.first, b);
+        let out = eval_once(eng, &base.join("diag"), &es, DirV::Db, Chan::Tree, b);
+        if !conforms(&out, baseline, complete) {
+            let has_beyond = es.iter().any(|e| as_trio_file(&e.rel).is_some_and(|(num, _)| num > b));
+            let key = if *s == Spec::Canonical && !has_beyond { "C12/root-not-reproducible".to_string() } else { class_key(&class) };
+            return (key, es, desc, out);
+        }
+    }
+    // not reproduced on a fresh copy
+    let (es, _, desc) = build(db, spec);
+    ("C12/root-not-reproducible".into(), es, desc, Out::Err("mismatch not reproduced on a fresh copy of the layout".into()))
+}
+
+struct LayoutStats {
+    /// distinct readdir orders of `immutable/` seen, per database
+    listings: HashSet<(Db, u64)>,
+}
+
+fn eval_variant(eng: &Engine, base: &Path, db: Db, spec: &Spec, light: bool, bl: &Baselines, rep: &mut Report, st: &mut LayoutStats) {
+    let (es, class, desc) = build(db, spec);
+    let _ = std::fs::remove_dir_all(base);
+    let dbdir = materialize(base, &es);
+    if class == Class::Order {
+        st.listings.insert((db, hash64(&listing(&dbdir.join("immutable")))));
+    }
+    let layout_id = hash64(&es);
+    let combos: Vec<(DirV, Chan)> = if light {
+        vec![(DirV::Db, Chan::Tree)]
+    } else {
+        DirV::ALL.iter().flat_map(|d| Chan::ALL.iter().map(move |c| (*d, *c))).collect()
+    };
+    for b in db.first..=db.last() + 1 {
+        let Some(baseline) = bl.root(db, b) else { continue };
+        let complete = covered_complete(&es, db.p, db.first, b);
+        let mut base_chan_ok = true;
+        for &(dirv, ch) in &combos {
+            rep.eval();
+            let out = run_chan(eng, base, &dbdir, dirv, ch, b);
+            if out.is_root() {
+                rep.nontrivial(&("layout", db, layout_id, b, dirv, ch));
+            }
+            if conforms(&out, baseline, complete) {
+                rep.outcome(match (&out, complete) {
+                    (Out::Root(_), true) => "root-equals-baseline",
+                    (Out::Root(_), false) => "beacon-trio-incomplete→different-root",
+                    (Out::Err(_), false) => "beacon-trio-missing→error",
+                    (Out::Err(_), true) => "error-equals-baseline-error",
+                });
+                continue;
+            }
+            rep.outcome("MISMATCH");
+            if !complete {
+                let key = "C12/covered-file-missing-not-reflected";
+                rep.violation(
+                    key,
+                    format!(
+                        "{:?}, layout {desc}: the files of trio {b} are not all present, yet {} via {} at beacon {b} answers {} — the root of the complete database",
+                        db, ch.name(), dirv.name(), out.show()
+                    ),
+                    layout_case(db, &es, &desc, b, dirv, ch, key),
+                );
+                continue;
+            }
+            if (dirv, ch) == (DirV::Db, Chan::Tree) {
+                base_chan_ok = false;
+                let (key, des, ddesc, dout) = diagnose(eng, &base.join("d"), db, spec, b, baseline);
+                rep.violation(
+                    &key,
+                    format!(
+                        "{:?}, layout {ddesc} [{}]: compute_merkle_tree (no cache) at beacon {b} answers {}, but the canonical layout of the same covered files (trios {}..={b} only, sorted creation) answers {} (first seen on layout {desc})",
+                        db, brief(&des), dout.show(), db.first, baseline.show()
+                    ),
+                    layout_case(db, &des, &ddesc, b, DirV::Db, Chan::Tree, &key),
+                );
+            } else if base_chan_ok {
+                let key = format!("C12/root-depends-on-entry-point:{}@{}", ch.name(), dirv.name());
+                rep.violation(
+                    &key,
+                    format!(
+                        "{:?}, layout {desc}: {} via {} at beacon {b} answers {}, while compute_merkle_tree without cache on the database directory answers the baseline {}",
+                        db, ch.name(), dirv.name(), out.show(), baseline.show()
+                    ),
+                    layout_case(db, &es, &desc, b, dirv, ch, &key),
+                );
+            }
+            // else: already reported through the (db-dir, no-cache) evaluation of this layout
+        }
+        // range digests: the digest of every covered file, by name
+        if !light && b <= db.last() {
+            for dirv in DirV::ALL {
+                rep.eval();
+                let got = eng.range(None, &dirv.path(&dbdir), db.first, b);
+                let want = bl.expected_range(db.p, &es, db.first, b);
+                match got {
+                    Ok(v) if v == want => {
+                        rep.outcome("range-digests-equal-reference");
+                        rep.nontrivial(&("range", db, layout_id, b, dirv));
+                    }
+                    other => {
+                        rep.outcome("MISMATCH");
+                        let key = format!("C12/range-digests-depend-on-layout:{}", class_key(&class).trim_start_matches("C12/"));
+                        rep.violation(
+                            &key,
+                            format!(
+                                "{:?}, layout {desc}: compute_digests_for_range({}..={b}) via {} gives {:?}, the canonical layout gives {:?}",
+                                db, db.first, dirv.name(), other, want
+                            ),
+                            layout_case(db, &es, &desc, b, dirv, Chan::Tree, &key),
+                        );
+                    }
+                }
+            }
+        }
+    }
+    if rep.samples.len() < 2 && (matches!(spec, Spec::ExtraAll(2)) || matches!(spec, Spec::TrioPerm(k) if *k == 5)) {
+        rep.sample(json!({"part": "A/layout", "db": db.to_json(), "layout": desc, "entries_in_creation_order": brief(&es),
+            "readdir_order_of_immutable_dir": listing(&dbdir.join("immutable")),
+            "root_at_last_beacon": bl.root(db, db.last()).map(|o| o.show())}));
+    }
+    let _ = std::fs::remove_dir_all(base);
+}
+
+fn specs_for(db: Db, thorough: bool, full_perm_db: bool) -> Vec<(Spec, bool)> {
+    let mut v: Vec<(Spec, bool)> = vec![(Spec::Canonical, false)];
+    for i in 0..beyond_additions(db).len() {
+        v.push((Spec::Beyond(i), false));
+    }
+    for i in 0..extras(db.first, db.n).len() {
+        v.push((Spec::ExtraOne(i, true), false));
+        v.push((Spec::ExtraOne(i, false), false));
+    }
+    for m in 0..3 {
+        v.push((Spec::ExtraAll(m), false));
+    }
+    v.push((Spec::ImmExtras, false));
+    let len = (3 * db.n) as usize;
+    if len <= 6 {
+        for k in 1..factorial(len) {
+            v.push((Spec::TrioPerm(k), false));
+        }
+    } else {
+        for i in 0..named_orders(len).len() {
+            v.push((Spec::TrioNamed(i), false));
+        }
+        if full_perm_db {
+            for k in 1..factorial(len) {
+                v.push((Spec::TrioPerm(k), true));
+            }
+        }
+    }
+    for k in 0..24 {
+        v.push((Spec::TopLevel(k), false));
+    }
+    if db.n == 1 || (thorough && db.n == 2) {
+        let l = len + imm_extras(db).len();
+        for k in 1..factorial(l) {
+            v.push((Spec::ImmPerm(k), db.n == 2));
+        }
+    }
+    v
+}
+
+// ------------------------------------------------------------------------------------------------
+// part B: perturbations (always without cache)
+
+#[derive(Clone, Debug, PartialEq, Eq, Hash)]
+enum Op {
+    Xor(usize, u8),
+    Truncate,
+    Empty,
+    Append(u8),
+    Remove,
+    BecomeDir,
+    /// exchange the bytes with those of another entry (by path)
+    SwapWith(String),
+}
+
+impl Op {
+    fn to_json(&self) -> Value {
+        match self {
+            Op::Xor(pos, m) => json!({"op": "xor", "pos": pos, "mask": m}),
+            Op::Truncate => json!({"op": "truncate-last-byte"}),
+            Op::Empty => json!({"op": "truncate-to-empty"}),
+            Op::Append(b) => json!({"op": "append", "byte": b}),
+            Op::Remove => json!({"op": "remove-file"}),
+            Op::BecomeDir => json!({"op": "replace-file-by-directory"}),
+            Op::SwapWith(o) => json!({"op": "swap-content-with", "other": o}),
+        }
+    }
+    fn from_json(v: &Value) -> Option<Op> {
+        Some(match v["op"].as_str()? {
+            "xor" => Op::Xor(v["pos"].as_u64()? as usize, v["mask"].as_u64()? as u8),
+            "truncate-last-byte" => Op::Truncate,
+            "truncate-to-empty" => Op::Empty,
+            "append" => Op::Append(v["byte"].as_u64()? as u8),
+            "remove-file" => Op::Remove,
+            "replace-file-by-directory" => Op::BecomeDir,
+            "swap-content-with" => Op::SwapWith(v["other"].as_str()?.to_string()),
+            _ => return None,
+        })
+    }
+}
+
+fn perturb_layout(db: Db) -> Vec<Entry> {
+    let (mut es, _, _) = build(db, &Spec::ExtraAll(0));
+    es.push(Entry { rel: "immutable/99999.chunk".into(), dir: false, data: bytes_for("beyond:99999", 5) });
+    es
+}
+
+fn is_covered(rel: &str, db: Db, b: u64) -> bool {
+    as_trio_file(rel).is_some_and(|(num, _)| num >= db.first && num <= b)
+}
+
+fn ops_for(es: &[Entry], target: usize, db: Db, b: u64, thorough: bool) -> Vec<Op> {
+    let e = &es[target];
+    let len = e.data.len();
+    let covered = is_covered(&e.rel, db, b);
+    let mut ops = vec![];
+    let positions: Vec<usize> = if len <= 16 || thorough {
+        (0..len).collect()
+    } else {
+        let mut v = vec![0, 1, len / 2, 4095, 4096, 8190, 8191, 8192, len - 1];
+        v.retain(|p| *p < len);
+        v.sort();
+        v.dedup();
+        v
+    };
+    let masks: Vec<u8> = if len <= 16 && thorough && covered {
+        (1..=255).collect()
+    } else if len <= 16 {
+        vec![0x01, 0x80, 0xff]
+    } else {
+        vec![0x01, 0x80]
+    };
+    for &p in &positions {
+        for &m in &masks {
+            ops.push(Op::Xor(p, m));
+        }
+    }
+    if len > 0 {
+        ops.push(Op::Truncate);
+    }
+    if len > 1 {
+        ops.push(Op::Empty);
+    }
+    ops.push(Op::Append(0x00));
+    ops.push(Op::Append(0x5a));
+    if covered {
+        for o in es.iter().skip(target + 1) {
+            if !o.dir && is_covered(&o.rel, db, b) && o.data != e.data {
+                ops.push(Op::SwapWith(o.rel.clone()));
+            }
+        }
+    }
+    ops.push(Op::Remove);
+    // (turning the file `ledger/immutable` into a directory would create a second directory named
+    // `immutable`: that is the observation of part D, not an extra *file*)
+    if !e.rel.ends_with("/immutable") && e.rel != "immutable" {
+        ops.push(Op::BecomeDir);
+    }
+    ops
+}
+
+fn apply_op(dbdir: &Path, es: &[Entry], target: usize, op: &Op) {
+    let e = &es[target];
+    let path = dbdir.join(&e.rel);
+    let mut d = e.data.clone();
+    match op {
+        Op::Xor(pos, m) => d[*pos] ^= *m,
+        Op::Truncate => {
+            d.pop();
+        }
+        Op::Empty => d.clear(),
+        Op::Append(b) => d.push(*b),
+        Op::Remove => {
+            std::fs::remove_file(&path).expect("remove");
+            return;
+        }
+        Op::BecomeDir => {
+            std::fs::remove_file(&path).expect("remove");
+            std::fs::create_dir(&path).expect("mkdir");
+            return;
+        }
+        Op::SwapWith(other) => {
+            let o = es.iter().find(|x| x.rel == *other).expect("swap partner");
+            std::fs::write(dbdir.join(&o.rel), &e.data).expect("write");
+            d = o.data.clone();
+        }
+    }
+    std::fs::write(&path, &d).expect("write");
+}
+
+fn undo_op(dbdir: &Path, es: &[Entry], target: usize, op: &Op) {
+    let e = &es[target];
+    let path = dbdir.join(&e.rel);
+    match op {
+        Op::BecomeDir => {
+            std::fs::remove_dir(&path).expect("rmdir");
+        }
+        Op::SwapWith(other) => {
+            let o = es.iter().find(|x| x.rel == *other).expect("swap partner");
+            std::fs::write(dbdir.join(&o.rel), &o.data).expect("write");
+        }
+        _ => {}
+    }
+    std::fs::write(&path, &e.data).expect("restore");
+}
+
+fn perturb_case(db: Db, es: &[Entry], b: u64, target: &str, op: &Op, key: &str) -> Value {
+    json!({"kind": "perturbation", "db": db.to_json(), "beacon": b, "target": target, "perturbation": op.to_json(), "key": key,
+           "entries_in_creation_order": entries_to_json(es)})
+}
+
+/// all perturbations of one file of one database at one beacon
+fn eval_perturb(eng: &Engine, base: &Path, db: Db, es: &[Entry], b: u64, target: usize, ops: &[Op], rep: &mut Report) {
+    let _ = std::fs::remove_dir_all(base);
+    let dbdir = materialize(base, es);
+    let r0 = eng.merkle(None, &dbdir, b, 1);
+    rep.eval();
+    if !r0.is_root() {
+        // reported by part A (this layout is ExtraAll + one far file); nothing to compare against
+        rep.outcome("perturbation-skipped:no-reference-root");
+        let _ = std::fs::remove_dir_all(base);
+        return;
+    }
+    let e = &es[target];
+    let covered = is_covered(&e.rel, db, b);
+    let mut by_pos: BTreeMap<usize, HashMap<Out, u8>> = BTreeMap::new();
+    for op in ops {
+        rep.eval();
+        apply_op(&dbdir, es, target, op);
+        let out = eng.merkle(None, &dbdir, b, 1);
+        undo_op(&dbdir, es, target, op);
+        rep.nontrivial(&("perturb", db, b, &e.rel, op));
+        if covered {
+            if out == r0 {
+                rep.outcome("MISMATCH");
+                let key = match op {
+                    Op::Remove | Op::BecomeDir => "C12/covered-file-missing-not-reflected",
+                    Op::SwapWith(_) => "C12/content-swap-not-reflected",
+                    _ => "C12/covered-change-not-reflected",
+                };
+                rep.violation(
+                    key,
+                    format!(
+                        "{:?} beacon {b}: after {} on covered file {} ({} bytes) compute_merkle_tree without cache still answers {}",
+                        db, op.to_json(), e.rel, e.data.len(), out.show()
+                    ),
+                    perturb_case(db, es, b, &e.rel, op, key),
+                );
+            } else {
+                rep.outcome(if out.is_root() { "covered-change→different-root" } else { "covered-change→error" });
+                if let Op::Xor(pos, m) = op
+                    && let Some(prev) = by_pos.entry(*pos).or_default().insert(out.clone(), *m)
+                {
+                    let key = "C12/covered-change-not-reflected";
+                    rep.violation(
+                        key,
+                        format!(
+                            "{:?} beacon {b}: byte {pos} of covered file {} xor {prev:#x} and xor {m:#x} give the same answer {}",
+                            db, e.rel, out.show()
+                        ),
+                        perturb_case(db, es, b, &e.rel, op, key),
+                    );
+                }
+            }
+        } else if out != r0 {
+            rep.outcome("MISMATCH");
+            let key = "C12/uncovered-change-reflected";
+            rep.violation(
+                key,
+                format!(
+                    "{:?} beacon {b}: {} on {} (not an immutable file numbered <= {b}) changes the answer from {} to {}",
+                    db, op.to_json(), e.rel, r0.show(), out.show()
+                ),
+                perturb_case(db, es, b, &e.rel, op, key),
+            );
+        } else {
+            rep.outcome("uncovered-change→same-root");
+        }
+    }
+    if rep.samples.is_empty() && covered && !ops.is_empty() {
+        rep.sample(json!({"part": "B/perturbation", "db": db.to_json(), "beacon": b, "target": e.rel, "covered": covered,
+            "perturbations": ops.iter().take(4).map(|o| o.to_json()).collect::<Vec<_>>(), "perturbations_total": ops.len(), "reference": r0.show()}));
+    }
+    let _ = std::fs::remove_dir_all(base);
+}
+
+// ------------------------------------------------------------------------------------------------
+// part C: cache histories over unchanged files
+
+#[derive(Clone, Copy, Debug, PartialEq, Eq, Hash)]
+enum Step {
+    Merkle(u64),
+    Range(u64, u64),
+    /// `reset()` of the cache provider
+    Reset,
+    /// a new provider object on the same store (process restart; JSON cache only)
+    Reopen,
+}
+
+impl Step {
+    fn to_json(&self) -> Value {
+        match self {
+            Step::Merkle(b) => json!({"step": "compute_merkle_tree", "beacon": b}),
+            Step::Range(lo, hi) => json!({"step": "compute_digests_for_range", "from": lo, "to": hi}),
+            Step::Reset => json!({"step": "cache-reset"}),
+            Step::Reopen => json!({"step": "reopen-cache"}),
+        }
+    }
+    fn from_json(v: &Value) -> Option<Step> {
+        Some(match v["step"].as_str()? {
+            "compute_merkle_tree" => Step::Merkle(v["beacon"].as_u64()?),
+            "compute_digests_for_range" => Step::Range(v["from"].as_u64()?, v["to"].as_u64()?),
+            "cache-reset" => Step::Reset,
+            "reopen-cache" => Step::Reopen,
+            _ => return None,
+        })
+    }
+}
+
+#[derive(Clone, Copy, Debug, PartialEq, Eq, Hash)]
+enum Prov {
+    Memory,
+    Json,
+}
+
+impl Prov {
+    fn name(self) -> &'static str {
+        match self {
+            Prov::Memory => "memory",
+            Prov::Json => "json",
+        }
+    }
+}
+
+fn alphabet(db: Db, prov: Prov) -> Vec<Step> {
+    let mut v = vec![];
+    for b in db.first..=db.last() + 1 {
+        v.push(Step::Merkle(b));
+    }
+    for lo in db.first..=db.last() + 1 {
+        for hi in lo..=db.last() + 1 {
+            v.push(Step::Range(lo, hi));
+        }
+    }
+    v.push(Step::Reset);
+    if prov == Prov::Json {
+        v.push(Step::Reopen);
+    }
+    v
+}
+
+fn history_case(db: Db, es: &[Entry], prov: Prov, phase: usize, steps: &[Step], failing: usize, key: &str) -> Value {
+    json!({"kind": "cache-history", "db": db.to_json(), "cache": prov.name(), "directory_phase": phase,
+           "steps": steps.iter().map(|s| s.to_json()).collect::<Vec<_>>(), "failing_step": failing, "key": key,
+           "entries_in_creation_order": entries_to_json(es)})
+}
+
+/// Run one history on the (unchanged) database in `dbdir`; every step is compared with the
+/// cache-less baseline.
+#[allow(clippy::too_many_arguments)]
+fn eval_history(eng: &Engine, cache_file: &Path, dbdir: &Path, db: Db, es: &[Entry], prov: Prov, phase: usize, steps: &[Step], bl: &Baselines, rep: &mut Report) {
+    let _ = std::fs::remove_file(cache_file);
+    let _ = std::fs::remove_file(cache_file.with_extension("tmp"));
+    let mut cache: Cache = match prov {
+        Prov::Memory => eng.memory_cache(),
+        Prov::Json => eng.json_cache(cache_file),
+    };
+    let mut computed = 0;
+    for (i, s) in steps.iter().enumerate() {
+        let dirv = DirV::ALL[(i + phase) % 2];
+        let dir = dirv.path(dbdir);
+        match *s {
+            Step::Reset => eng.reset(&cache),
+            Step::Reopen => {
+                if let Ok(c) = eng.json_cache_via_builder(cache_file) {
+                    cache = c;
+                }
+            }
+            Step::Merkle(b) => {
+                rep.eval();
+                let out = eng.merkle(Some(cache.clone()), &dir, b, 3 + i as u64);
+                let Some(baseline) = bl.root(db, b) else { continue };
+                let complete = b <= db.last();
+                if conforms(&out, baseline, complete) {
+                    computed += 1;
+                    rep.outcome(if complete { "history-step-root-equals-baseline" } else { "history-step-missing-beacon→error" });
+                } else {
+                    rep.outcome("MISMATCH");
+                    let key = format!("C12/root-depends-on-cache-history:{}", prov.name());
+                    rep.violation(
+                        &key,
+                        format!(
+                            "{:?}, {} cache, history {:?}: step {i} (compute_merkle_tree at beacon {b} via {}) answers {}; without cache on the canonical layout the answer is {}",
+                            db, prov.name(), steps, dirv.name(), out.show(), baseline.show()
+                        ),
+                        history_case(db, es, prov, phase, &steps[..=i], i, &key),
+                    );
+                }
+            }
+            Step::Range(lo, hi) => {
+                rep.eval();
+                let got = eng.range(Some(cache.clone()), &dir, lo, hi);
+                let want = bl.expected_range(db.p, es, lo, hi);
+                if got.as_ref().ok() == Some(&want) {
+                    computed += 1;
+                    rep.outcome("history-step-range-digests-equal-reference");
+                } else {
+                    rep.outcome("MISMATCH");
+                    let key = format!("C12/range-digests-depend-on-cache-history:{}", prov.name());
+                    rep.violation(
+                        &key,
+                        format!(
+                            "{:?}, {} cache, history {:?}: step {i} (compute_digests_for_range {lo}..={hi} via {}) gives {:?}; without cache the digests are {:?}",
+                            db, prov.name(), steps, dirv.name(), got, want
+                        ),
+                        history_case(db, es, prov, phase, &steps[..=i], i, &key),
+                    );
+                }
+            }
+        }
+    }
+    if computed >= 2 {
+        rep.nontrivial(&("history", db, prov, phase, steps));
+    }
+}
+
+// ------------------------------------------------------------------------------------------------
+// part D: observations (never violations)
+
+fn observations(eng: &Engine, scratch: &Path, bl: &Baselines, db: Db) -> Value {
+    let b = db.last();
+    let Some(baseline) = bl.root(db, b) else { return json!(null) };
+    let canon = db.canonical();
+    let a = format!("{:05}", db.first);
+    let verdict = |out: &Out| -> String {
+        if out == baseline { "same root".into() } else { format!("DIFFERENT: {}", out.show()) }
+    };
+    let lookalike_trio = |prefix: &str| -> Vec<Entry> {
+        (0..3).map(|e| file(&format!("{prefix}/{}", trio_name(db.first, e)), 5)).chain((0..3).map(|e| file(&format!("{prefix}/{}", trio_name(b, e)), 5))).collect()
+    };
+    let mut obs = serde_json::Map::new();
+    let mut run = |name: &str, es: Vec<Entry>| {
+        let out = eval_once(eng, &scratch.join("obs"), &es, DirV::Db, Chan::Tree, b);
+        obs.insert(name.to_string(), json!(verdict(&out)));
+    };
+    // a second directory called `immutable` elsewhere in the tree
+    run("second-immutable-dir:ledger/immutable created before immutable/", lookalike_trio("ledger/immutable").into_iter().chain(canon.clone()).collect());
+    run("second-immutable-dir:ledger/immutable created after immutable/", canon.clone().into_iter().chain(lookalike_trio("ledger/immutable")).collect());
+    run("second-immutable-dir:volatile/x/immutable created before", lookalike_trio("volatile/x/immutable").into_iter().chain(canon.clone()).collect());
+    run("second-immutable-dir:immutable/immutable (nested)", canon.clone().into_iter().chain(lookalike_trio("immutable/immutable")).collect());
+    // immutable extension, stem not a number
+    run("immutable/abc.chunk (immutable extension, stem not a number)", canon.clone().into_iter().chain([file("immutable/abc.chunk", 5)]).collect());
+    run("immutable/.tmp.chunk (hidden temp file with immutable extension)", canon.clone().into_iter().chain([file("immutable/.tmp.chunk", 5)]).collect());
+    // numeric stem in another spelling: counts as an immutable file of that number
+    run(&format!("immutable/{}.chunk (unpadded spelling of a covered number)", db.first + 1000), canon.clone().into_iter().chain([file(&format!("immutable/{}.chunk", db.first + 1000), 5)]).collect());
+    run(&format!("immutable/{}.chunk (unpadded spelling of covered number {})", db.first, db.first), canon.clone().into_iter().chain([file(&format!("immutable/{}.chunk", db.first), 5)]).collect());
+    run("immutable/99999999999999999999.chunk (number beyond u64)", canon.clone().into_iter().chain([file("immutable/99999999999999999999.chunk", 5)]).collect());
+    // stale cache: a covered byte changes after the cache was warmed (outside the property: the
+    // property only speaks of cache state over unchanged files, and of sensitivity without cache)
+    {
+        let base = scratch.join("obs-stale");
+        let _ = std::fs::remove_dir_all(&base);
+        let dbdir = materialize(&base, &canon);
+        let cache = eng.memory_cache();
+        let warm = eng.merkle(Some(cache.clone()), &dbdir, b, 1);
+        let target = dbdir.join(format!("immutable/{a}.secondary"));
+        let mut d = std::fs::read(&target).unwrap_or_default();
+        d.push(0x42);
+        let _ = std::fs::write(&target, &d);
+        let stale = eng.merkle(Some(cache), &dbdir, b, 1);
+        let cold = eng.merkle(None, &dbdir, b, 1);
+        obs.insert(
+            "stale-cache: covered file modified after the cache was warmed".into(),
+            json!(format!(
+                "warm cache {} the change, no cache {} it",
+                if stale == warm { "masks" } else { "reflects" },
+                if cold != warm { "reflects" } else { "MASKS" }
+            )),
+        );
+        let _ = std::fs::remove_dir_all(&base);
+    }
+    Value::Object(obs)
+}
+
+// ------------------------------------------------------------------------------------------------
+// replay
+
+fn replay(ctx: &Ctx, rep: &mut Report, v: &Value) {
+    let eng = Engine::new();
+    let scratch = ctx.scratch();
+    let Some(db) = Db::from_json(&v["db"]) else {
+        rep.machinery_error("replay file lacks db".into());
+        return;
+    };
+    let bl = compute_baselines(&eng, &scratch, &[db.p], &[db.first], db.n.max(v["beacon"].as_u64().unwrap_or(0).saturating_sub(db.first)) + 1, rep);
+    let es = entries_from_json(&v["entries_in_creation_order"]).unwrap_or_default();
+    match v["kind"].as_str().unwrap_or("") {
+        "baseline" => {}
+        "layout" => {
+            let b = v["beacon"].as_u64().unwrap_or(0);
+            let dirv = DirV::parse(v["directory_handed_in"].as_str().unwrap_or(""));
+            let ch = Chan::parse(v["entry_point"].as_str().unwrap_or(""));
+            let key = v["key"].as_str().unwrap_or("C12/replay").to_string();
+            rep.eval();
+            let Some(baseline) = bl.root(db, b) else {
+                rep.machinery_error("no baseline for the replayed beacon".into());
+                return;
+            };
+            let complete = covered_complete(&es, db.p, db.first, b);
+            if key.starts_with("C12/range-digests") {
+                let base = scratch.join("replay");
+                let dbdir = materialize(&base, &es);
+                let got = eng.range(None, &dirv.path(&dbdir), db.first, b);
+                let want = bl.expected_range(db.p, &es, db.first, b);
+                if got.as_ref().ok() != Some(&want) {
+                    rep.violation(&key, format!("replayed: range digests {:?}, reference {:?}", got, want), v.clone());
+                }
+            } else {
+                let out = eval_once(&eng, &scratch.join("replay"), &es, dirv, ch, b);
+                if !conforms(&out, baseline, complete) {
+                    rep.violation(&key, format!("replayed: {} via {} at beacon {b} answers {}, baseline {}", ch.name(), dirv.name(), out.show(), baseline.show()), v.clone());
+                }
+            }
+        }
+        "perturbation" => {
+            let b = v["beacon"].as_u64().unwrap_or(0);
+            let target = v["target"].as_str().unwrap_or("");
+            let (Some(op), Some(ti)) = (Op::from_json(&v["perturbation"]), es.iter().position(|e| e.rel == target)) else {
+                rep.machinery_error("replay file: bad perturbation".into());
+                return;
+            };
+            eval_perturb(&eng, &scratch.join("replay"), db, &es, b, ti, &[op], rep);
+        }
+        "cache-history" => {
+            let prov = if v["cache"].as_str() == Some("json") { Prov::Json } else { Prov::Memory };
+            let phase = v["directory_phase"].as_u64().unwrap_or(0) as usize;
+            let steps: Vec<Step> = v["steps"].as_array().map(|a| a.iter().filter_map(Step::from_json).collect()).unwrap_or_default();
+            let base = scratch.join("replay");
+            let dbdir = materialize(&base, &es);
+            eval_history(&eng, &base.join("cache/c.json"), &dbdir, db, &es, prov, phase, &steps, &bl, rep);
+        }
+        other => rep.machinery_error(format!("unknown replay kind {other:?}")),
+    }
+    rep.nontrivial(&0);
+    rep.nontrivial(&1);
+}
+
+// ------------------------------------------------------------------------------------------------
+
+pub fn run(ctx: &Ctx) -> ! {
+    let thorough = ctx.tier == mc_core::Tier::Thorough;
+    let mut rep = Report::new(
+        "exploration",
+        "every database of the lattice (size pattern x first trio number x number of trios) is written to tmpfs in every \
+         enumerated layout (creation orders, extra-file placements, files beyond the beacon), perturbed in every enumerated \
+         single-byte / single-file way, and put through every cache history up to the depth bound; each case calls the real \
+         CardanoImmutableDigester / CardanoDatabaseSignableBuilder and is compared with the cache-less answer on the canonical \
+         layout of the same covered files. A case is non-trivial when the real code produced a Merkle root or range digests \
+         for it (part A, C: at least two cache-using computations per history) or when a perturbation was applied to a \
+         database whose reference root exists (part B); distinct = distinct (database, layout, beacon, directory, entry \
+         point) / (database, beacon, file, perturbation) / (database, cache, history)",
+    );
+    if let Some(path) = &ctx.replay {
+        let v = mc_core::load_replay(path);
+        replay(ctx, &mut rep, &v);
+        rep.finish(ctx);
+    }
+    let scratch = ctx.scratch();
+    let threads = ctx.threads();
+
+    let patterns: Vec<Pattern> = if thorough {
+        vec![Pattern::Zero, Pattern::One, Pattern::Five, Pattern::MixA, Pattern::MixB, Pattern::Big]
+    } else {
+        vec![Pattern::Zero, Pattern::Five, Pattern::MixA, Pattern::Big]
+    };
+    let firsts: Vec<u64> = vec![0, 1];
+    let nmax: u64 = if thorough { 4 } else { 3 };
+    rep.extra(
+        "bounds",
+        json!({
+            "size_patterns": patterns.iter().map(|p| p.name()).collect::<Vec<_>>(),
+            "first_trio_numbers": firsts, "max_trios": nmax,
+            "beacons": "every number from the first trio to one past the last trio",
+            "cache_history_steps": if thorough { 4 } else { 3 },
+            "byte_values_per_covered_position": if thorough { 255 } else { 3 },
+        }),
+    );
+
+    let eng = Engine::new();
+    let bl = compute_baselines(&eng, &scratch, &patterns, &firsts, nmax, &mut rep);
+    // vacuity guard on the reference itself: different beacons of a database must give different roots
+    for &p in &patterns {
+        for &first in &firsts {
+            let roots: HashSet<&Out> = (first..=first + nmax).filter_map(|b| bl.root.get(&(p, first, b))).collect();
+            if roots.len() != (nmax + 1) as usize {
+                rep.violation(
+                    "C12/covered-change-not-reflected",
+                    format!("baselines of pattern {} first {first} at beacons {first}..={} are not pairwise different", p.name(), first + nmax),
+                    json!({"kind": "baseline", "db": Db{p, first, n: nmax + 1}.to_json(), "beacon": first + nmax}),
+                );
+            }
+        }
+    }
+
+    let mut dbs: Vec<Db> = vec![];
+    for &p in &patterns {
+        for &first in &firsts {
+            for n in 1..=nmax {
+                // the big-file pattern is about hashing whole files, not about listing: small n only
+                if p == Pattern::Big && n > 2 {
+                    continue;
+                }
+                dbs.push(Db { p, first, n });
+            }
+        }
+    }
+
+    // ---- part A
+    let full_perm_db = Db { p: Pattern::MixA, first: 1, n: 3 };
+    let mut a_items: Vec<(Db, Vec<(Spec, bool)>)> = vec![];
+    let mut a_variants = 0u64;
+    let mut perm_sweeps: Vec<Value> = vec![];
+    for &db in &dbs {
+        let specs = specs_for(db, thorough, thorough && db == full_perm_db);
+        a_variants += specs.len() as u64;
+        let perms = specs.iter().filter(|(s, _)| matches!(s, Spec::TrioPerm(_))).count() as u64 + 1;
+        if db.p == Pattern::MixA {
+            perm_sweeps.push(json!({"db": db.to_json(), "trio_file_creation_orders": perms,
+                "all_permutations": perms == factorial((3 * db.n) as usize)}));
+        }
+        for chunk in specs.chunks(48) {
+            a_items.push((db, chunk.to_vec()));
+        }
+    }
+    let a_parts = par_map(&a_items, threads, |i, (db, specs)| {
+        let eng = Engine::new();
+        let mut r = Report::new("exploration", "");
+        let mut st = LayoutStats { listings: HashSet::new() };
+        let base = scratch.join(format!("a{i}"));
+        for (spec, light) in specs {
+            eval_variant(&eng, &base, *db, spec, *light, &bl, &mut r, &mut st);
+        }
+        let _ = std::fs::remove_dir_all(&base);
+        (r, st.listings)
+    });
+    let mut listings: HashSet<(Db, u64)> = HashSet::new();
+    for (r, l) in a_parts {
+        rep.merge(r);
+        listings.extend(l);
+    }
+    rep.extra("partA_layouts", json!(a_variants));
+    rep.extra("partA_trio_permutation_sweeps", json!(perm_sweeps));
+    // the creation-order clause is only meaningful if creation order really changes what readdir returns
+    let mut per_db: BTreeMap<String, u64> = BTreeMap::new();
+    for (db, _) in &listings {
+        *per_db.entry(format!("{}/first{}/n{}", db.p.name(), db.first, db.n)).or_insert(0) += 1;
+    }
+    let n2 = Db { p: Pattern::MixA, first: 1, n: 2 };
+    let seen_n2 = listings.iter().filter(|(d, _)| *d == n2).count() as u64;
+    rep.extra("distinct_readdir_orders_of_immutable_dir_observed", json!(listings.len()));
+    rep.extra("distinct_readdir_orders_observed_for_2_trios_mixA_first1", json!(seen_n2));
+    if seen_n2 < 720 {
+        rep.machinery_error(format!(
+            "creation order does not control readdir order on the scratch file system: 720 creation orders of 6 files gave only {seen_n2} distinct listings"
+        ));
+    }
+
+    // ---- part B
+    let mut b_items: Vec<(Db, u64, usize)> = vec![];
+    for &db in &dbs {
+        let es = perturb_layout(db);
+        for b in db.first..=db.last() {
+            for (t, e) in es.iter().enumerate() {
+                if !e.dir {
+                    b_items.push((db, b, t));
+                }
+            }
+        }
+    }
+    let b_parts = par_map(&b_items, threads, |i, &(db, b, t)| {
+        let eng = Engine::new();
+        let mut r = Report::new("exploration", "");
+        let es = perturb_layout(db);
+        let ops = ops_for(&es, t, db, b, thorough);
+        r.add_extra("partB_perturbations", ops.len() as u64);
+        if is_covered(&es[t].rel, db, b) {
+            r.add_extra("partB_perturbations_of_covered_files", ops.len() as u64);
+        }
+        eval_perturb(&eng, &scratch.join(format!("b{i}")), db, &es, b, t, &ops, &mut r);
+        r
+    });
+    for r in b_parts {
+        rep.merge(r);
+    }
+
+    // ---- part C
+    let depth = if thorough { 4 } else { 3 };
+    let c_patterns: Vec<Pattern> = if thorough { vec![Pattern::MixA, Pattern::Zero, Pattern::Five] } else { vec![Pattern::MixA, Pattern::Zero] };
+    let mut c_dbs: Vec<(Db, PathBuf, Vec<Entry>)> = vec![];
+    for &p in &c_patterns {
+        for &first in &firsts {
+            for n in 1..=nmax {
+                // the largest alphabet at full depth only for one pattern
+                if thorough && n == 4 && !(p == Pattern::MixA && first == 1) {
+                    continue;
+                }
+                if !thorough && first == 0 && p != Pattern::MixA {
+                    continue;
+                }
+                let db = Db { p, first, n };
+                let (es, _, _) = build(db, &Spec::ExtraAll(2));
+                let dir = materialize(&scratch.join(format!("c-db-{}-{first}-{n}", p.name().replace('/', "_"))), &es);
+                c_dbs.push((db, dir, es));
+            }
+        }
+    }
+    struct CItem {
+        dbi: usize,
+        prov: Prov,
+        phase: usize,
+        from: usize,
+        to: usize,
+    }
+    let mut c_items: Vec<CItem> = vec![];
+    let mut seq_cache: HashMap<usize, Vec<Vec<usize>>> = HashMap::new();
+    let mut c_histories = 0u64;
+    for (dbi, (db, _, _)) in c_dbs.iter().enumerate() {
+        for prov in [Prov::Memory, Prov::Json] {
+            let al = alphabet(*db, prov).len();
+            let seqs = seq_cache.entry(al).or_insert_with(|| mc_core::sequences(al, depth).into_iter().filter(|s| s.len() == depth).collect());
+            for phase in 0..2 {
+                c_histories += seqs.len() as u64;
+                let mut from = 0;
+                while from < seqs.len() {
+                    let to = (from + 1024).min(seqs.len());
+                    c_items.push(CItem { dbi, prov, phase, from, to });
+                    from = to;
+                }
+            }
+        }
+    }
+    rep.extra("partC_histories", json!(c_histories));
+    rep.extra("partC_databases", json!(c_dbs.len()));
+    let c_parts = par_map(&c_items, threads, |i, it| {
+        let eng = Engine::new();
+        let mut r = Report::new("exploration", "");
+        let (db, dir, es) = &c_dbs[it.dbi];
+        let al = alphabet(*db, it.prov);
+        let seqs = &seq_cache[&al.len()];
+        let cache_file = scratch.join(format!("c-cache-{i}")).join("immutables_digests.json");
+        let _ = std::fs::create_dir_all(cache_file.parent().unwrap());
+        for s in &seqs[it.from..it.to] {
+            let steps: Vec<Step> = s.iter().map(|&k| al[k]).collect();
+            eval_history(&eng, &cache_file, dir, *db, es, it.prov, it.phase, &steps, &bl, &mut r);
+            if i == 0 && r.samples.is_empty() && steps.iter().filter(|s| matches!(s, Step::Merkle(_))).count() == depth {
+                r.sample(json!({"part": "C/cache-history", "db": db.to_json(), "cache": it.prov.name(),
+                    "steps": steps.iter().map(|s| s.to_json()).collect::<Vec<_>>()}));
+            }
+        }
+        let _ = std::fs::remove_dir_all(cache_file.parent().unwrap());
+        r
+    });
+    for r in c_parts {
+        rep.merge(r);
+    }
+    // the databases of part C must not have been modified by the code under test
+    for (db, dir, es) in &c_dbs {
+        for e in es.iter().filter(|e| !e.dir) {
+            if std::fs::read(dir.join(&e.rel)).ok().as_deref() != Some(&e.data[..]) {
+                rep.machinery_error(format!("part C database {:?}: file {} changed during the run", db, e.rel));
+            }
+        }
+    }
+
+    // ---- part D
+    let obs = observations(&eng, &scratch, &bl, Db { p: Pattern::MixA, first: 1, n: 2 });
+    rep.extra("observations_outside_the_property", obs);
+
+    rep.assume("the scratch directory is on tmpfs, whose readdir order is a function of creation order (newest first on this kernel): 'directory creation order' is controlled by the order in which the harness creates the entries; the run counts the distinct listings it observed and refuses a verdict if permuting creation does not permute listings");
+    rep.assume("creation orders: all permutations of the trio files for 1 and 2 trios (and of 1 trio + 3 extras inside immutable/; thorough: 2 trios + 1 extra, and all 9! orders of 3 trios for one database); rotations, reversals, extension-major and interleaved orders beyond; all 24 orders of the four top-level groups");
+    rep.assume("the reference is the real code's own cache-less answer on the canonical layout (differential oracle, no re-implementation of SHA-256 or of the Merkle tree); the sensitivity clauses (part B) keep a constant or truncated digest from passing");
+    rep.assume("cache histories are over unchanged files only, as the property says; a cache warmed before a file changed is reported as an observation");
+    rep.assume("an extra file is one that is not an immutable file by name: outside immutable/, or inside it without the exact extension chunk/primary/secondary, or a directory. Files inside immutable/ with an immutable extension and another spelling of the number or a non-numeric stem, and a second directory named 'immutable', are reported under observations_outside_the_property, not judged");
+    rep.assume("a beacon whose trio is absent or incomplete must not give the root of the complete database (an error is the usual answer); the property does not demand the error itself");
+    rep.finish(ctx)
 }
